@@ -153,11 +153,18 @@ class VLoop(asyncio.BaseEventLoop):
                     self.iterate()
                 else:
                     return ("stuck", None)
-            # drain what is left so that late callbacks (and their exceptions) are observed
-            for _ in range(50):
-                if not self._ready:
+            # drain what is left so that late callbacks (and their exceptions) are observed: the main task
+            # is done, but jobs that are still in flight (items of a failed list, siblings of a failed
+            # gather) do finish eventually -- complete them oldest first
+            for _ in range(200):
+                if self._ready:
+                    self.iterate()
+                    continue
+                live = [p for p in self.pending if not p.fut.done()]
+                if not live:
                     break
-                self.iterate()
+                self.pending = live[1:]
+                self._complete(live[0])
             if task.cancelled():
                 return ("cancelled", None)
             exc = task.exception()
